@@ -80,7 +80,7 @@ ASSUMPTIONS = [
     "Rayleigh and for the generators MuChannel clones itself",
 ]
 
-QUICK_BUDGET_S = 90
+QUICK_BUDGET_S = 180   # ~120 CPU-s in total; only reached on an overloaded host
 THOROUGH_BUDGET_S = 1500
 
 COST = {"TU": "COST259_TUx", "RA": "COST259_RAx", "HT": "COST259_HTx"}
@@ -382,11 +382,11 @@ def _enum_slices(tier):
 
 PARTS = [
     Part("time", lambda tier: _single_case(tier, "time"),
-         quick=2400, thorough=120000),
+         quick=1600, thorough=50000),
     Part("freq", lambda tier: _single_case(tier, "freq"),
-         quick=2400, thorough=120000),
-    Part("mu", _mu_case, quick=1200, thorough=50000),
-    Part("profile", _profile_case, quick=3000, thorough=200000),
+         quick=1800, thorough=60000),
+    Part("mu", _mu_case, quick=800, thorough=25000),
+    Part("profile", _profile_case, quick=2000, thorough=100000),
     Part("slices", enumerate=_enum_slices, exhaustive=True, quick_shards=4),
 ]
 
